@@ -193,9 +193,11 @@ def lookup_does_not_import(which, with_sub, missing):
         os.remove(sentinel)
     for k in [k for k in sys.modules if k.startswith(SPKG + ".")]:
         del sys.modules[k]
-    mod, sub = (SPKG, "element") if which == 0 else (SPKG + ".sub", "leaf")
+    mod, sub = (SPKG, "element") if which == 0 else ((SPKG + ".sub", "leaf") if which == 1 else (SPKG + ".element", "Element"))
     if missing:
         sub = "nonexistent"
+    if which == 2 and not with_sub:
+        return ""  # a symbol is only ever passed as the second argument (from `from m import Symbol`), never inside a dotted module path
     try:
         if with_sub:
             find_module_filepath(mod, sub)
@@ -212,7 +214,7 @@ def lookup_does_not_import(which, with_sub, missing):
     return ""
 
 
-ob("C17", "import.find_module_filepath", {"which": R(0, 1), "with_sub": BOOL, "missing": BOOL}, T=120,
+ob("C17", "import.find_module_filepath", {"which": R(0, 2), "with_sub": BOOL, "missing": BOOL}, T=120,
    funcs=["cdd.shared.pure_utils.find_module_filepath"],
-   bound="find_module_filepath on a scratch package whose modules write a sentinel file when executed: top-level / nested module, (module, submodule) or dotted form, "
+   bound="find_module_filepath on a scratch package whose modules write a sentinel file when executed: top-level / nested module / (module, SYMBOL name as taken from `from m import Symbol`), (module, submodule) or dotted form, "
          "existing or missing (solver-enumerated): the looked-up module's code does not run and it does not enter sys.modules")(lookup_does_not_import)
